@@ -5,7 +5,7 @@ Open Scope N_scope.
 
 Theorem C14src_entry : forall fuel junk jm secret cfg i, runs fuel junk secret -> small_input i ->
   (0 <= sc_challenge cfg <= 6)%Z /\ (sc_p cfg = true -> 1 <= sc_pwhash cfg <= 3)%Z ->
-  ((exists code, Src.GenerateOCRA fuel jm secret cfg i = Val (code, None))
+  ((exists code, Src.GenerateOCRA fuel jm secret (Some cfg) i = Val (code, None))
    <-> (exists key, Src.DecodeSecret fuel secret = Val (key, None)) /\ usable cfg /\ admissible cfg i).
 Proof.
   intros fuel junk jm secret cfg i (Hf & Hfs & Hs & Hj) Hi Hr.
